@@ -158,6 +158,7 @@ func cmdRun(args []string) int {
 	params := fs.String("params", "", "N=3,K=2")
 	permute := fs.Bool("permute-maps", false, "explore map iteration orders")
 	prof := fs.String("cpuprofile", "", "write cpu profile")
+	overrides := fs.String("override", "", "fn=harnessFn,...")
 	fs.Parse(args)
 	if *prof != "" {
 		f, _ := os.Create(*prof)
@@ -169,6 +170,11 @@ func cmdRun(args []string) int {
 	if err != nil {
 		fmt.Fprintln(os.Stderr, "load:", err)
 		return 2
+	}
+	for _, kv := range strings.Split(*overrides, ",") {
+		if parts := strings.SplitN(kv, "=", 2); len(parts) == 2 {
+			p.Overrides[parts[0]] = parts[1]
+		}
 	}
 	p.Verbose = *verbose
 	fmt.Fprintf(os.Stderr, "loaded in %.1fs; harnesses: %v\n", time.Since(t0).Seconds(), names)
